@@ -67,15 +67,17 @@ fn get_semantic_tokens<TCompilationProfile: CompilationProfile>(
         &uri.to_file_path().expect("Expected file path to be valid."),
     );
 
+    // TODO pass this as a param to parse_iso_literal_in_relative_file
+    let page_content: &str =
+        match read_iso_literals_source_from_relative_path(db, relative_path_to_source_file) {
+            Some(source) => &source.content,
+            // e.g. a file that is open in the editor, but was deleted on disk. As when
+            // formatting, there is nothing to answer (rather than panicking).
+            None => return Ok(None),
+        };
+
     let parse_results =
         parse_iso_literals_in_file_content_and_return_all(db, relative_path_to_source_file);
-
-    // TODO call this earlier, pass it as a param to parse_iso_literal_in_relative_file
-    let page_content: &str =
-        &read_iso_literals_source_from_relative_path(db, relative_path_to_source_file)
-            .as_ref()
-            .expect("Expected source to exist")
-            .content;
 
     let absolute_tokens = concatenate_and_absolutize_relative_tokens(
         parse_results
